@@ -185,6 +185,22 @@ def conc_rounds(run, drv, args, label, module="ConcTrace.tla", cfg="ConcTrace.cf
         k = max(i for i in range(len(starts) - 1) if starts[i] <= bad_line)
         rnd = body[starts[k]:starts[k + 1]]
         hdr = json.loads(rnd[0])
+        # is the round explained by a recorded deviation of the specification (a known finding)?
+        one = os.path.join(run.tmp, "conc-%s-round%d.ndjson" % (label, k))
+        with open(one, "w") as f:
+            f.write(header + "\n" + "\n".join(rnd) + "\n")
+        rc2, tout2, dt2 = run.tlc(module, cfg.replace(".cfg", "Dev.cfg"), env={"TRACE": one}, workers=1, timeout=3000, label="conc-dev-%s-%d" % (label, k))
+        m2 = re.search(r'"CONSUMED",\s*(\d+),\s*"OF",\s*(\d+)', tout2)
+        if m2 and int(m2.group(1)) >= int(m2.group(2)):
+            f_ = next((f for f in run.findings if f.get("status") != "fixed" and f.get("deviation") == "D_EVENT_NOT_ATOMIC"), None)
+            if f_ is not None:
+                if f_["id"] not in [x[0] for x in run.known]:
+                    run.known.append((f_["id"], f_["what"]))
+                run.cov.setdefault("deviation_rounds", 0)
+                run.cov["deviation_rounds"] += 1
+                run.cov["traces_validated_against_impl"] += k - first
+                first = k + 1
+                continue
         run.violation("no sequential order explains round %s (%s state): stuck at %s" % (hdr.get("round"), hdr.get("state"),
                       body[bad_line][:200]), {"header": json.loads(header), "round": [json.loads(x) for x in rnd]}, stage="linearizability")
         run.cov["traces_validated_against_impl"] += k - first
@@ -192,6 +208,24 @@ def conc_rounds(run, drv, args, label, module="ConcTrace.tla", cfg="ConcTrace.cf
     run.cov["stages"].append({"stage": "linearizability", "label": label, "rounds": len(starts) - 1, "races": len(races)})
     if body:
         run.sample({"round_of": label, "lines": [json.loads(x).get("op", json.loads(x).get("ev")) for x in body[starts[0]:starts[1]]][:14]})
+
+def c11(run):
+    q = run.tier == "quick"
+    run.model_check("EngineMC.tla", "MC_parents.cfg")
+    drv = run.build("concdrv", race=True)
+    reps = 1 if q else 5
+    for i in range(reps):
+        conc_rounds(run, drv, ["-seed", str(run.seed * 100 + i), "-rounds", "240" if q else "1000", "-clients", "6", "-ops", "3",
+                               "-via", "system", "-layout", "own"], "c11-system-%d" % i)
+        conc_rounds(run, drv, ["-seed", str(run.seed * 100 + 50 + i), "-rounds", "240" if q else "1000", "-clients", "6", "-ops", "3",
+                               "-via", "http", "-layout", "own"], "c11-http-%d" % i)
+    run.assumptions += TRUSTED[:3] + ["every round starts a new System (cold storage, cold location cache): the first requests of the clients "
+                                      "are released together", "Go race detector on the validated runs; verif hook points in the location cache"]
+    return run.finish(rule="rounds of 2-6 clients, each owning one location of a freshly started System (location-cache TTL forever / never / "
+                           "1 ms rotating; indexed / linear), 3 requests each, through sys.System and through HTTPService.ServeHTTP in rotating "
+                           "encodings; TLC (ConcTrace) checks every logged result and every location's final memory and storage against "
+                           "Engine: with disjoint locations that is exactly 'as if each location's requests had run alone in issue order'; "
+                           "race reports, deadlocks and crashes of the same runs are violations")
 
 def c12(run):
     q = run.tier == "quick"
@@ -320,12 +354,17 @@ def c15(run):
         "executed and removed")
 
 def c17(run):
+    drv = run.build("concdrv", race=True)
+    conc_rounds(run, drv, ["-seed", str(run.seed), "-rounds", "300" if run.tier == "quick" else "2000", "-clients", "4", "-ops", "3",
+                           "-via", "system", "-layout", "shared"], "c17-first-requests")
     return engine_prop(run, ["MC_parents.cfg"],
         [dict(profile="system", n=n(run, 72, 900), extra=["-via", "system"])],
         "the same seeded histories over three locations (facts, rules, parents, events, clear, create) through sys.System under "
         "location-cache TTL never / 1ms / forever x existence checking on / off x indexed / linear (rotated over the traces); every "
         "configuration has to refine the one cache-less Engine specification line by line (results and storage ids), which is what "
-        "transparency means; with checking on, requests to a never-created location must answer not-found and store nothing")
+        "transparency means; with checking on, requests to a never-created location must answer not-found and store nothing. "
+        "Single load / shared instance: rounds of 2-4 concurrent FIRST requests to one location of a freshly started System (TTL "
+        "forever / never / 1 ms) are checked for linearizability (two instances of the location would lose acknowledged writes)")
 
 def c18(run):
     return engine_prop(run, ["MC_parents.cfg"],
@@ -444,7 +483,7 @@ def c03(run):
                            "indexed and linear state, through Location.Query; TLC compares the returned bindings as a BAG with Query!Eval; "
                            "states/transitions: QueryMC (algebraic laws of Eval on all trees up to depth 1/2 x all fact subsets)")
 
-CHECKS = {"C12": c12, "C13": c13, "C15": c15, "C06": c06, "C14": c14, "C17": c17, "C18": c18, "C01": c01, "C03": c03, "C04": c04, "C05": c05, "C02": c02, "C07": c07, "C08": c08, "C09": c09, "C10": c10, "C19": c19, "C20": c20}
+CHECKS = {"C11": c11, "C12": c12, "C13": c13, "C15": c15, "C06": c06, "C14": c14, "C17": c17, "C18": c18, "C01": c01, "C03": c03, "C04": c04, "C05": c05, "C02": c02, "C07": c07, "C08": c08, "C09": c09, "C10": c10, "C19": c19, "C20": c20}
 
 def replay(run, path):
     rejected, out = run.validate("EngineTrace.tla", "EngineTrace.cfg", path, "replay")
